@@ -318,6 +318,24 @@ def run(ctx):  # noqa: C901, PLR0912, PLR0915
                     direct.append(f2.qual)
     ctx.ob('C15.R4', 'single entry', not direct, '_repeated_enqueue_msg is called only from add_outbound_message',
            where=NT, witness=direct)
+    # a stopped node can be started again: _stop_threads forgets the joined networking thread, because _start_threads
+    # creates a new one only when there is none - a kept (dead) thread drops every message in _repeated_enqueue_msg
+    W = 'sdc11073.wsdiscovery.wsdimpl.WSDiscovery'
+    st_f, sp_f = repo.func(f'{W}._start_threads'), repo.func(f'{W}._stop_threads')
+    gs_, gp_ = cfg_of(st_f), cfg_of(sp_f)
+    guards = {t[:-len(' is None')] for n in gs_.nodes if n.kind == 'return' for t, p in gs_.facts_at(n).both()
+              if p is False and t.endswith(' is None')}
+    created = {unparse(n.stmt.targets[0]) for n in gs_.real_nodes() if n.kind == 'stmt' and isinstance(n.stmt, ast.Assign)
+               and isinstance(n.stmt.value, ast.Call)}
+    attrs = guards & created
+    joins = [n for n, c in gp_.nodes_calling('join')]
+    resets = [n for n in gp_.real_nodes() if n.kind == 'stmt' and isinstance(n.stmt, ast.Assign) and
+              unparse(n.stmt.targets[0]) in attrs and isinstance(n.stmt.value, ast.Constant) and n.stmt.value.value is None]
+    ok = bool(attrs) and bool(joins) and bool(resets) and all(gp_.must_pass(j, resets) for j in joins)
+    ctx.ob('C15.R3', 'restart creates a new networking thread', ok,
+           '_stop_threads resets the attribute that _start_threads tests before it creates the networking thread' if ok else
+           f'_start_threads returns early while {sorted(guards)} is set, but _stop_threads does not reset it after the join: '
+           f'after stop() + start() no thread runs and every discovery message is dropped (0 transmissions)', fi=sp_f)
 
 
 OPAQUE = object()
